@@ -163,3 +163,33 @@ Definition all_reasons (c : ccase) : list nat :=
   dedup Nat.eqb (r_ids ++ r_str ++ rs).
 
 Definition reasons_in (keep : list nat) (c : ccase) : list nat := filter (fun r => memn r keep) (all_reasons c).
+
+(* ---- the predicates can fail: one minimal observed history per reason code ---- *)
+Definition ex_req := mkEnv 1 (Some (MdOk 0)) None (Some 7) None false.
+Definition ex_reply (b : Z) := mkEnv 1 (Some (MdOk 0)) None (Some b) (Some (MdOk 0)) false.
+Definition ex_o (evs : list cev) (pend : list (Z * Z)) (mux : Z) := mkObs evs (Some 0) pend 0 mux.
+
+Example reason_2 : all_reasons (CClient [ANewUnary 7 false; ANewUnary 8 false]
+    [ex_o [EvWrite ex_req] [(0, 0)] 1; ex_o [EvWrite ex_req] [(0, 0); (1, 0)] 1]) = [2%nat].
+Proof. vm_compute. reflexivity. Qed.
+Example reason_3_5 : all_reasons (CClient [ANewUnary 7 false; ADeliver (ex_reply 8)]
+    [ex_o [EvWrite ex_req] [(0, 0)] 1; ex_o [EvUnaryRet 0 (UOk 9)] [] 1]) = [5%nat; 3%nat].
+Proof. vm_compute. reflexivity. Qed.
+Example reason_4 : all_reasons (CClient [ANewStream false; ADeliver (mkEnv 1 (Some (MdOk 0)) None (Some 50) None false);
+                                          ADeliver (mkEnv 1 (Some (MdOk 0)) None (Some 51) None false); ARecv 0 false; ARecv 0 false]
+    [ex_o [EvWrite (mkEnv 1 (Some (MdOk 0)) None None None false); EvOpenRet 0 None] [] 1; ex_o [] [] 1; ex_o [] [] 1;
+     ex_o [EvRecvRet 0 (RMsg 51)] [] 1; ex_o [EvRecvRet 0 (RMsg 50)] [] 1]) = [4%nat].
+Proof. vm_compute. reflexivity. Qed.
+Example reason_6 : all_reasons (CClient [ANewUnary 7 false; AFailRead]
+    [ex_o [EvWrite ex_req] [(0, 0)] 1; ex_o [] [(0, 0)] 0]) = [6%nat].
+Proof. vm_compute. reflexivity. Qed.
+Example reason_7 : all_reasons (CClient [AFailRead; ANewUnary 7 false]
+    [ex_o [] [] 0; ex_o [EvWrite ex_req] [(0, 0)] 0]) = [6%nat; 7%nat].
+Proof. vm_compute. reflexivity. Qed.
+Example reason_8 : all_reasons (CClient [ANewStream false; ARecv 0 false]
+    [ex_o [EvWrite (mkEnv 1 (Some (MdOk 0)) None None None false); EvOpenRet 0 None] [] 1; ex_o [EvPanic 0] [] 1]) = [8%nat].
+Proof. vm_compute. reflexivity. Qed.
+Example reason_10 : all_reasons (CClient [ANewStream false; ADeliver (mkEnv 1 (Some (MdOk 0)) None (Some 50) None false); AFailRead; ARecv 0 false]
+    [ex_o [EvWrite (mkEnv 1 (Some (MdOk 0)) None None None false); EvOpenRet 0 None] [] 1; ex_o [] [] 1; ex_o [] [] 0;
+     ex_o [EvRecvRet 0 (RErr EConn)] [] 0]) = [10%nat].
+Proof. vm_compute. reflexivity. Qed.
